@@ -5,6 +5,7 @@ import (
 	"context"
 	"fmt"
 	"hash/fnv"
+	htmltemplate "html/template"
 	"io"
 	"math/rand"
 	"net/http"
@@ -14,6 +15,7 @@ import (
 	"sort"
 	"strconv"
 	"strings"
+	texttemplate "text/template"
 	"time"
 
 	"github.com/bool64/cache"
@@ -610,6 +612,52 @@ func runC14(o Opts) *Result {
 			break
 		}
 	}
+	// ---- a long-lived Export handler and a type registered after it served its first request: the handler must compare with
+	// the CURRENT types hash (an importer with the identical type set is served, one with the old hash is refused)
+	if o.Only < 0 && !timeUp() {
+		res.Evaluations++
+		exp := &cache.HTTPTransfer{}
+		src := newX("sharded", func(c *cache.Config) { c.TimeToLive = cache.UnlimitedTTL; c.ExpirationJitter = -1 })
+		fillX(rand.New(rand.NewSource(o.Seed)), src, 7)
+		exp.AddCache("late", src.WDR())
+		handler := exp.Export()
+		doImport := func(staleHash string) (int, error) {
+			imp := &cache.HTTPTransfer{}
+			dst := newX("sharded", func(c *cache.Config) { c.TimeToLive = cache.UnlimitedTTL; c.ExpirationJitter = -1 })
+			imp.AddCache("late", dst.WDR())
+			imp.Transport = rtFunc(func(r *http.Request) (*http.Response, error) {
+				if staleHash != "" {
+					q := r.URL.Query()
+					q.Set("typesHash", staleHash)
+					r.URL.RawQuery = q.Encode()
+				}
+				rec := httptest.NewRecorder()
+				handler.ServeHTTP(rec, r)
+				return rec.Result(), nil
+			})
+			err := imp.Import(ctx, "http://exporter.local/debug/transfer-cache")
+			return len(dst.Walk()), err
+		}
+		lfail := func(sig, detail string) {
+			res.Violations = append(res.Violations, Violation{Property: "C14", Kind: "monitor", Sig: "xfer:http-" + sig, Detail: detail,
+				Replay: map[string]interface{}{"engine": "xfer", "profile": "c14", "scenario": "type registered after the Export handler served a request"}})
+		}
+		oldHash := fmt.Sprint(cache.GobTypesHash())
+		if n, _ := doImport(""); n != 7 {
+			lfail("late-registration", fmt.Sprintf("before the late registration: %d of 7 entries imported", n))
+		}
+		cache.GobRegister(lateType{})
+		if fmt.Sprint(cache.GobTypesHash()) == oldHash {
+			lfail("hash-unchanged-on-add", "registering a new type in this process left GobTypesHash unchanged")
+		}
+		if n, _ := doImport(""); n != 7 {
+			lfail("late-registration", fmt.Sprintf("after a type was registered (exporter and importer share the registry, so their hashes are equal) the handler created earlier served %d of 7 entries", n))
+		}
+		if n, _ := doImport(oldHash); n != 0 {
+			lfail("late-registration", fmt.Sprintf("an importer presenting the types hash from before the registration was served %d entries by the handler created earlier; a mismatching hash must import nothing", n))
+		}
+		res.TracesValidated++
+	}
 	// ---- types hash in fresh processes
 	self, _ := os.Executable()
 	child := func(spec string) (uint64, error) {
@@ -623,7 +671,7 @@ func runC14(o Opts) *Result {
 		res.Violations = append(res.Violations, Violation{Property: "C14", Kind: "monitor", Sig: "xfer:hash-" + sig, Detail: detail,
 			Replay: map[string]interface{}{"engine": "xfer", "profile": "c14", "registration": spec, "rerun": "harness hashchild -profile " + spec}})
 	}
-	const pool = 6
+	const pool = 8 // 6 harness types + text/template.Template and html/template.Template (same short name)
 	fp := make([]uint64, pool)
 	for t := 0; t < pool; t++ {
 		h, err := child(fmt.Sprint(t))
@@ -722,7 +770,8 @@ type HT5 struct {
 }
 
 func runHashChild(o Opts) *Result {
-	pool := []interface{}{HT0{}, HT1{}, HT2{}, HT3{}, HT4{}, HT5{}}
+	// the last two are distinct types with the same short name ("template.Template") from different packages
+	pool := []interface{}{HT0{}, HT1{}, HT2{}, HT3{}, HT4{}, HT5{}, texttemplate.Template{}, htmltemplate.Template{}}
 	for _, call := range strings.Split(o.Profile, ";") {
 		var vals []interface{}
 		for _, t := range strings.Split(call, ",") {
@@ -738,3 +787,6 @@ func runHashChild(o Opts) *Result {
 	os.Exit(0)
 	return nil
 }
+
+// lateType is registered while an Export handler is already serving.
+type lateType struct{ A, B int }
